@@ -126,15 +126,17 @@ func genVector(r *rand.Rand, dim int, metric string) []float32 {
 		v[1] = float32(r.IntN(351) - 175) // longitude
 	}
 	if metric == models.DistanceCosine {
-		// cosine distance is defined on normalised vectors (the API normalises nothing): avoid the zero vector
-		zero := true
+		// the cosine metric is defined on unit vectors (the API normalises nothing): generate unit vectors
+		n := 0.0
 		for _, x := range v {
-			if x != 0 {
-				zero = false
-			}
+			n += float64(x) * float64(x)
 		}
-		if zero {
-			v[0] = 1
+		if n == 0 {
+			v[0], n = 1, 1
+		}
+		n = math.Sqrt(n)
+		for i := range v {
+			v[i] = float32(float64(v[i]) / n)
 		}
 	}
 	return v
